@@ -91,15 +91,16 @@ def phi (P : Params) (s : State) : Nat :=
   | .exited | .dead => 0
   | .exiting => 1
   | .top => 2
-  | .drop c => (s.pending.length - c) + s.pending.length + 3
-  | .send _ => 2 * s.pending.length + 4
-  | .parse => 5
-  | .poll => 2 * s.pending.length + 5
-  | .submit k => (P.T - k) + 2 * P.T + 5
-  | .obtain => 3 * P.T + 6
+  | .drop c => (s.pending.length - c) + s.pending.length * (P.maxLate + 1) + (P.maxLate - s.late) + 3
+  | .send _ => s.pending.length * (P.maxLate + 2) + P.maxLate + 4
+  | .parse => P.maxLate + 5
+  | .poll => s.pending.length * (P.maxLate + 2) + P.maxLate + 5
+  | .submit k => (P.T - k) + P.T * (P.maxLate + 2) + P.maxLate + 5
+  | .obtain => P.T + P.T * (P.maxLate + 2) + P.maxLate + 6
 
-/-- `B(params)`: linear in the number of transfers per frame. -/
-def stopBound (P : Params) : Nat := 3 * P.T + 6
+/-- `B(params)`: linear in the number of transfers per frame (and in the cancellation latency of
+the USB stack: every cancelled transfer may need up to `maxLate` extra polls to be reaped). -/
+def stopBound (P : Params) : Nat := P.T + P.T * (P.maxLate + 2) + P.maxLate + 6
 
 theorem pend_le_step {P : Params} {A : Assembler} {script : List Item} {s s' : State} {a : Step}
     (hp : PoolOK P s) (h : s.pending.length ≤ P.T) (hs : step P A script s a = some s') :
@@ -121,6 +122,9 @@ theorem pend_le_step {P : Params} {A : Assembler} {script : List Item} {s s' : S
 theorem phi_le_bound {P : Params} {s : State} (hp : PoolOK P s) (hl : s.pending.length ≤ P.T) :
     phi P s ≤ stopBound P := by
   have hT := T_ge_two P
+  have h1 : s.pending.length * (P.maxLate + 2) ≤ P.T * (P.maxLate + 2) := Nat.mul_le_mul_right _ hl
+  have h2 : s.pending.length * (P.maxLate + 1) + s.pending.length = s.pending.length * (P.maxLate + 2) := by
+    rw [← Nat.mul_succ]
   unfold phi stopBound
   split <;> omega
 
@@ -157,8 +161,11 @@ theorem phi_loop_step {P : Params} {A : Assembler} {script : List Item} {s s' : 
     · next k hpc =>
       obtain ⟨hl, hk⟩ := hsub k hpc
       split at hs
-      · split at hs <;> (injection hs with hs; subst hs) <;>
-          simp only [phi, hpc, List.length_append, List.length_cons, List.length_nil] <;> omega
+      · split at hs <;> (injection hs with hs; subst hs)
+        · simp only [phi, hpc]; omega
+        · next hge =>
+          have hkT : k + 1 = P.T := by omega
+          simp only [phi, hpc, List.length_append, List.length_cons, List.length_nil, hl, hkT]; omega
       · cases hs
     · cases hs
   case submitFail e =>
@@ -166,8 +173,10 @@ theorem phi_loop_step {P : Params} {A : Assembler} {script : List Item} {s s' : 
     split at hs
     · next k hpc =>
       obtain ⟨hl, hk⟩ := hsub k hpc
+      have h1 : k * (P.maxLate + 2) ≤ P.T * (P.maxLate + 2) := Nat.mul_le_mul_right _ (by omega)
+      have h2 : k * (P.maxLate + 1) + k = k * (P.maxLate + 2) := by rw [← Nat.mul_succ]
       split at hs
-      · split at hs <;> (injection hs with hs; subst hs) <;> simp only [phi, hpc] <;> omega
+      · split at hs <;> (injection hs with hs; subst hs) <;> simp only [phi, hpc, hl] <;> omega
       · cases hs
     · cases hs
   case pollOk =>
@@ -180,9 +189,47 @@ theorem phi_loop_step {P : Params} {A : Assembler} {script : List Item} {s s' : 
         · injection hs with hs; subst hs
           strip_gap
           by_cases hr : rest = []
-          · subst hr; simp [phi, hpc, hpend]
-          · simp only [phi, hpc, hpend, if_neg hr, List.length_cons]; omega
+          · subst hr; simp only [phi, hpc, hpend, if_true, List.length_cons, List.length_nil]; omega
+          · simp only [phi, hpc, hpend, if_neg hr, List.length_cons, Nat.succ_mul]; omega
         · cases hs
+      · cases hs
+    · cases hs
+  case pollOverflow =>
+    unfold stepPollOverflow at hs
+    split at hs
+    · next hpc =>
+      split at hs
+      · next x rest d hpend hitem =>
+        split at hs
+        · cases hs
+        · injection hs with hs; subst hs
+          simp only [phi, hpc, hpend, List.length_cons, Nat.succ_mul]; omega
+      · cases hs
+    · cases hs
+  case pollFault =>
+    unfold stepPollFault at hs
+    split at hs
+    · next hpc =>
+      split at hs
+      · next x rest e hpend hitem =>
+        injection hs with hs; subst hs
+        simp only [phi, hpc, hpend, List.length_cons, Nat.succ_mul]; omega
+      · cases hs
+    · cases hs
+  case trySend =>
+    unfold stepTrySend at hs
+    split at hs
+    · next m hpc =>
+      have h2 : s.pending.length * (P.maxLate + 1) + s.pending.length = s.pending.length * (P.maxLate + 2) := by
+        rw [← Nat.mul_succ]
+      split at hs <;> split at hs <;> (injection hs with hs; subst hs) <;> simp only [phi, hpc] <;> omega
+    · cases hs
+  case cancelNext =>
+    unfold stepCancelNext at hs
+    split at hs
+    · next c hpc =>
+      split at hs
+      · injection hs with hs; subst hs; simp only [phi, hpc]; omega
       · cases hs
     · cases hs
   case reapOne =>
@@ -194,8 +241,16 @@ theorem phi_loop_step {P : Params} {A : Assembler} {script : List Item} {s s' : 
         split at hs
         · next hcl =>
           injection hs with hs; subst hs
-          simp only [phi, hpc, hpend, List.length_cons] at hcl ⊢; omega
+          simp only [phi, hpc, hpend, List.length_cons, Nat.succ_mul] at hcl ⊢; omega
         · cases hs
+      · cases hs
+    · cases hs
+  case reapLate =>
+    unfold stepReapLate at hs
+    split at hs
+    · next c hpc =>
+      split at hs
+      · next hg => injection hs with hs; subst hs; simp only [phi, hpc]; omega
       · cases hs
     · cases hs
   all_goals (
